@@ -5,7 +5,7 @@ from harness.stackgen import Fns, gen_layers
 from harness.oracles import deadlock_violations
 
 PROP = "C04"
-PLAN = {"quick": {"runs": 6000, "wall_s": 60}, "thorough": {"runs": 150000, "wall_s": 900}}
+PLAN = {"quick": {"runs": 14000, "wall_s": 90}, "thorough": {"runs": 150000, "wall_s": 900}}
 RULE = ("Each run: a random executor stack (depth 0-3 over sync / thread_pool(1-2)), up to 3 client threads "
         "issuing submit / cancel / add_done_callback / result(timeout) / one shutdown, with nested submissions "
         "from callables, map / flat_map / poll functions and done-callbacks, under a seeded schedule. "
